@@ -903,7 +903,7 @@ static void DecodeDC(Word Code) {
     UNUSED(Code);
 
     as_tempres_ini(&t);
-    if (ChkArgCnt(1, ArgCntMax)) {
+    if (ChkArgCnt(1, ArgCntMax) && ChkArgCodeSpace(4)) {
         OK = True;
         for (z = 1; z <= ArgCnt; z++) {
             if (OK) {
